@@ -153,11 +153,31 @@ class _Lit(ast.NodeTransformer):
         return node
 
 
+def _lit_subscript(self, node):
+    self.generic_visit(node)
+    sl = node.slice
+    if isinstance(sl, ast.Call) and isinstance(sl.func, ast.Name) and \
+            sl.func.id == 'slice' and 1 <= len(sl.args) <= 3 and not sl.keywords and \
+            not any(isinstance(a, ast.Starred) for a in sl.args):
+        a = list(sl.args)
+        if len(a) == 1:
+            a = [None, a[0]]
+        a += [None] * (3 - len(a))
+        none = lambda x: x is None or (isinstance(x, ast.Constant) and x.value is None)
+        node.slice = ast.Slice(lower=None if none(a[0]) else a[0],
+                               upper=None if none(a[1]) else a[1],
+                               step=None if none(a[2]) else a[2])
+    return node
+
+
+_Lit.visit_Subscript = _lit_subscript
+
+
 def subst(expr, env):
     if expr is None:
         return None
     new = _Sub(env).visit(clone(expr))
-    if any(isinstance(n, ast.Name) and n.id == 'getattr' for n in ast.walk(new)):
+    if any(isinstance(n, ast.Name) and n.id in ('getattr', 'slice') for n in ast.walk(new)):
         new = _Lit().visit(new)
     return new
 
